@@ -390,11 +390,16 @@ def core_spec(draw, core_rings=(1, 2), n_types=(1, 3), rings=(2, 4), ducts=(1, 2
             src = posmeta[draw(st.integers(0, len(posmeta) - 1))]
             ring, pos = pos_to_ring(idx)
             srow = [r_ for r_ in assignment if pos_to_ring(src["idx"]) == (r_[1], r_[2])][0]
-            assignment.append([src["type"], ring, pos, pos, dict(srow[4])])
+            bc_ = dict(srow[4])
+            near = "FLOWRATE" in bc_ and draw(st.integers(0, 2)) == 0
+            if near:
+                # near twin: the same assembly with a flow rate that differs in the fifth or sixth significant digit
+                bc_["FLOWRATE"] = r6(bc_["FLOWRATE"] * (1.0 + draw(st.sampled_from([1e-5, -1e-5, 3e-5, 1e-4]))))
+            assignment.append([src["type"], ring, pos, pos, bc_])
             pfile[str(idx + 1)] = copy.deepcopy(pfile[str(src["idx"] + 1)])
             Ptot += src["P"]
-            posmeta.append({"idx": idx, "type": src["type"], "Re": src["Re"], "P": src["P"], "flow": src["flow"],
-                            "twin_of": src["idx"]})
+            posmeta.append({"idx": idx, "type": src["type"], "Re": src["Re"], "P": src["P"], "flow": bc_.get("FLOWRATE", src["flow"]),
+                            "twin_of": src["idx"], "near_twin": bool(near)})
             continue
         tname = "T%d" % draw(st.integers(0, nt - 1))
         meta = metas[tname]
